@@ -70,6 +70,24 @@ func (r *Run) scribble(c *Call) []*Violation {
 		return nil
 	}
 	l := r.Ledger[c.L]
+	// The public mutators used below are first run on throw-away values, so that
+	// any legitimate lazy initialisation they may trigger happens before the
+	// package-state snapshot is taken.
+	func() {
+		defer func() { recover() }()
+		e := new(field.Element).One()
+		e.Add(e, e)
+		e.Negate(e)
+		p := edwards25519.NewGeneratorPoint()
+		p.Add(p, p)
+		p.Negate(p)
+		p.MultByCofactor(p)
+		s := edwards25519.NewScalar()
+		s.Add(s, s)
+		s.Subtract(s, s)
+		s.MultiplyAdd(s, s, s)
+		s.SetCanonicalBytes(make([]byte, 32))
+	}()
 	pre := r.W.Snapshot()
 	var pkgPre []byte
 	if r.PkgSnap != nil {
